@@ -360,12 +360,16 @@ impl Writer {
         total_bytes: usize,
     ) -> std::io::Result<()> {
         let ring_size = (write_plan.len() + 64).min(4096) as u32; // Cap at 4096, convert to u32
+        #[cfg(walrus_verif)]
+        let ring_size = if crate::wal::verif::buggify("uring_init_fail") { u32::MAX } else { ring_size };
         let mut ring = io_uring::IoUring::new(ring_size).map_err(|e| {
             std::io::Error::new(
                 std::io::ErrorKind::Other,
                 format!("io_uring init failed: {}", e),
             )
         })?;
+        #[cfg(walrus_verif)]
+        let mut ring = crate::wal::verif::uring::RingShim::new(ring);
         let mut buffers: Vec<Vec<u8>> = Vec::new();
 
         for (blk, offset, data_idx) in write_plan.iter() {
@@ -420,6 +424,10 @@ impl Writer {
                     .user_data(*data_idx as u64);
 
             buffers.push(combined);
+            #[cfg(walrus_verif)]
+            if let Some(b) = buffers.last() {
+                ring.note_write(&blk.file_path, fd.0, file_offset, b.as_ptr(), b.len(), *data_idx as u64);
+            }
 
             unsafe {
                 ring.submission().push(&write_op).map_err(|e| {
